@@ -38,6 +38,14 @@ func VerifSetLeaseFile(file, format string) {
 	leaseFiles = []leaseFile{{file, format}}
 }
 
+// VerifSetLeaseFileList: several candidate lease files in preference order (the first that exists is read).
+func VerifSetLeaseFileList(files []string, format string) {
+	leaseFiles = nil
+	for _, f := range files {
+		leaseFiles = append(leaseFiles, leaseFile{f, format})
+	}
+}
+
 // --- mDNS tables
 
 func VerifNewMDNS() *MDNS {
